@@ -73,7 +73,7 @@ def _sizes(ck, P, cfg):
             if n.k == "BinaryOperator" and n.op in ("<=", "==", "<", ">", ">=") and "size" in X.show(n.children[0]):
                 v = X.const_int(n.children[1])
                 if v is not None and v > 0:
-                    consts.add((n.op, v))
+                    consts.add(({"!=": "==", ">": "<="}.get(n.op, n.op), v))
         need = {("==", ctrl)} | ({("<=", anti)} if fname.endswith("handle") else {("==", anti)})
         if need <= consts:
             ck.holds("C02.1", "tests@%s" % fname, h.where, "size tests %s" % sorted(consts), cfg)
